@@ -219,7 +219,7 @@ func main() {
 		if mapSites == 0 {
 			die("maporder: found no map range to rewrite")
 		}
-		writeVerifmap(filepath.Join(repo, "zygo", "verifmap"))
+		writeVerifmap(filepath.Join(repo, "zygo", "verifmap"), siteList)
 	}
 	if seams["oswall"] {
 		if wallSites == 0 {
@@ -241,8 +241,16 @@ func shimName(path, fn string) string {
 	return strings.ToUpper(p[:1]) + p[1:] + "_" + fn
 }
 
-func writeVerifmap(dir string) {
+func writeVerifmap(dir string, siteList []string) {
 	os.MkdirAll(dir, 0755)
+	var tbl strings.Builder
+	for _, s := range siteList {
+		var n int
+		var pos string
+		if c, _ := fmt.Sscanf(s, "site %d %s", &n, &pos); c == 2 {
+			fmt.Fprintf(&tbl, "\t%d: %q,\n", n, pos)
+		}
+	}
 	src := `// Code generated by verifinst. Map-order seam: the simulator decides the
 // iteration order of every map range in package zygo.
 package verifmap
@@ -264,6 +272,13 @@ var Order func(site, occ, n int) []int
 // Hits counts executions per site.
 var Hits = map[int]int{}
 
+// Multi counts executions per site over a map of two or more keys (the only ones whose order can differ).
+var Multi = map[int]int{}
+
+// Sites: source position of every rewritten range site.
+var Sites = map[int]string{
+@SITES@}
+
 func Seq2[K comparable, V any](m map[K]V, site int) iter.Seq2[K, V] {
 	return func(yield func(K, V) bool) {
 		if Native {
@@ -281,6 +296,9 @@ func Seq2[K comparable, V any](m map[K]V, site int) iter.Seq2[K, V] {
 			keys = append(keys, k)
 		}
 		sort.Slice(keys, func(i, j int) bool { return less(keys[i], keys[j]) })
+		if len(keys) >= 2 {
+			Multi[site]++
+		}
 		var perm []int
 		if Order != nil {
 			perm = Order(site, occ, len(keys))
@@ -318,6 +336,7 @@ func less(a, b any) bool {
 	return fmt.Sprint(a) < fmt.Sprint(b)
 }
 `
+	src = strings.Replace(src, "@SITES@", tbl.String(), 1)
 	if err := os.WriteFile(filepath.Join(dir, "verifmap.go"), []byte(src), 0644); err != nil {
 		die("%v", err)
 	}
